@@ -377,10 +377,26 @@ class _Dag:
 
     def leaf(self, requires_grad: bool, tag: str, shape=None):
         shape = self.rng.choice(DAG_SHAPES) if shape is None else shape
-        t = _rand_tensor(self.rng, shape, self.dtype).requires_grad_(requires_grad)
+        t = _rand_tensor(self.rng, shape, self.dtype)
+        # several leaves may live in ONE flat buffer (parameters laid out in a single storage): they are distinct tensors all
+        # the same.  The layout stream is separate: values, shapes and graph structure are those of the earlier versions.
+        lay = getattr(self, "_layout_rng", None)
+        if lay is None:
+            lay = self._layout_rng = random.Random(self.rng.getstate()[1][0] ^ 0x51ED)
+            self._flat, self._used = torch.zeros(256, dtype=self.dtype), 0
+        n = t.numel()
+        tagx = ""
+        if lay.random() < 0.4 and n >= 1 and self._used + n <= self._flat.numel():
+            # written through .data: the (shared) version counter of the buffer is not bumped, so leaves created earlier and
+            # already used by the graph stay valid (the region written is disjoint from theirs)
+            self._flat.data[self._used:self._used + n].copy_(t.reshape(-1))
+            view = self._flat[self._used:self._used + n].view(tuple(shape))
+            self._used += n
+            t, tagx = view, "/B"
+        t = t.requires_grad_(requires_grad)
         self.leaves.append(t)
         self.pool.append(t)
-        self.desc.append(f"{tag}{len(self.leaves) - 1}{tuple(shape)}{'g' if requires_grad else 'n'}")
+        self.desc.append(f"{tag}{len(self.leaves) - 1}{tuple(shape)}{'g' if requires_grad else 'n'}{tagx}")
         return t
 
     def name(self, t):
